@@ -37,6 +37,10 @@ from dassh import logged_class as _lc_mod
 from dassh import material as _material_mod
 
 
+import re as _re
+_SCRATCH = _re.compile(r'\S*simdassh_[A-Za-z0-9_]+')
+
+
 class SimCrash(BaseException):
     """Process death injected by the simulator"""
 
@@ -403,7 +407,8 @@ class Sim(object):
             lv = str(level).lower()
             if lv in ('error', 'critical', 'warning'):
                 sim.hist.add('verdict', level=lv,
-                             msg=str(message)[:120])
+                             msg=_SCRATCH.sub('<scratch>',
+                                              str(message))[:120])
             return orig_log(obj, level, message, indent)
 
         def mt_update(tr, mat):
